@@ -513,7 +513,7 @@ std::string sqf::parser::preprocessor::impl_default::instance::handle_arg(::sqf:
                 auto res = try_get_macro(word);
                 if (res.has_value())
                 {
-                    if (res.value().is_callable())
+                    if (res.value().is_callable() && !part_of_word)
                     {
                         local_fileinfo.move_back();
                     }
